@@ -55,6 +55,9 @@ func runC08(c *Check) {
 	c.mapRules()
 	c.graphConsumers()
 	c.fetchOrder()
+	// "regardless of goroutine interleavings": the bytes of one serialization are built from
+	// scratch fields that only the holder of encodeMu rebuilds and reads (shared with C20-R1)
+	c.relabel(c.scratchFields, "C20-R1", "C08-R6", func(o *Obligation) bool { return strings.HasPrefix(o.Key, "scratch:") })
 }
 
 // fetchOrder (R4): concurrently fetched profiles are combined in command-line order (the
